@@ -37,6 +37,7 @@ IMPL = os.path.join(lib.VERIF, 'harness', 'impl', 'c06_impl.py')
 TAG2ID = {'F1': 'C06-F1', 'F2': 'C06-F2', 'F3': 'C06-F3', 'F4': 'C06-F4', 'F5': 'C06-F5', 'F6': 'C06-F6',
           'F9': 'C06-F9'}
 NPROC = 8
+PH: dict = {}
 
 sys.path.insert(0, os.path.join(lib.VERIF, 'harness', 'translate'))
 
@@ -339,6 +340,12 @@ def run(tier):
     rep = lib.Report(PROP, tier, 'proof')
     thorough = tier == 'thorough'
     t0 = time.time()
+    PH.clear()
+    tp = [time.time()]
+
+    def phase(name):
+        PH[name] = time.time() - tp[0]
+        tp[0] = time.time()
 
     # ---- (a) translator
     tr_err, manifest = None, None
@@ -355,16 +362,18 @@ def run(tier):
     rep.coverage['refutation_witnesses'] = {t: ('checked' if refuted_ok else 'NOT CHECKED') for t in REFUTED}
     exe, blog = lib.build_model('c06', 'ExtractC06.v', 'c06_main.ml', 'C06_ext')
 
+    phase('proof+build')
     # ---- cases
     core, mal, libt = gen_cases(tier)
     corp = corpus()
     corp_core = [tuple(G.dec_case(c['case'])) for c in corp if 'case' in c]
-    corp_text = [c['text'] for c in corp if 'text' in c]
+    corp_text = [c for c in corp if 'text' in c]
     cases = corp_core + core + mal
     lines = [G.enc_case(*c) for c in cases]
     impl = run_impl(lines)
     model = lib.run_model(exe, lines) if exe else None
 
+    phase('core impl+model')
     known = {k['id']: k for k in lib.known_findings(PROP)}
 
     # ---- compare + classify
@@ -386,8 +395,6 @@ def run(tier):
             d, ev, tags, fd = compare(c, r, model[i])
             for kk in evstat:
                 evstat[kk] += ev[kk]
-            if d and i >= len(corp_core) + len(core) and d == 'accept' and not r.get('err') is None:
-                pass
             if d:
                 # the malformed stream may be rejected for type reasons the untyped model does not see
                 if not (i >= len(corp_core) + len(core) and r.get('err') and str(r['err']).startswith('E:other')):
@@ -400,7 +407,7 @@ def run(tier):
             mon_hits.append((i, tags))
 
     # ---- exploration stream (implicit factoring) + corpus text cases: monitors only
-    text_cases = [json.dumps(t) for t in corp_text]
+    text_cases = [json.dumps(t['text']) for t in corp_text]
     text_meta = [('corpus', t.get('finding')) for t in corp_text]
     for sch, le, dbs in libt:
         try:
@@ -415,6 +422,7 @@ def run(tier):
                   'evaluated_dbs': sum(1 for r in text_res for x in r.get('r', []) if not x.startswith(('X:', 'A:'))),
                   'monitor_hits': len(text_hits)}
 
+    phase('exploration stream')
     # ---- upstream pinned labels
     ups = upstream_expectations(lib.REPO)
     ups_res = run_impl([json.dumps(u) for u in ups], 'expect') if ups else []
@@ -430,6 +438,7 @@ def run(tier):
         if not ok:
             ups_bad.append((u, got))
 
+    phase('upstream labels')
     # ---- Coq-internal evaluation of a sample (guards the extraction)
     coq_diff, n_coq = [], 0
     if model is not None and pf['ok']:
@@ -470,6 +479,7 @@ def run(tier):
         except RuntimeError as ex:
             coq_diff.append((-1, str(ex)[-500:]))
 
+    phase('coq cross-check')
     # ---- verdict ---------------------------------------------------------------------------
     def mon_pred(kind_prefix):
         def pred(cs):
@@ -479,25 +489,31 @@ def run(tier):
 
     reported_ids = {}
     unexplained = []
-    budget = 12 if not thorough else 40
-    # smallest failing cases first
-    for i, tags in sorted(mon_hits, key=lambda t: len(lines[t[0]]))[:400]:
-        ftags = sorted({t for t in tags if t in TAG2ID})
-        if ftags and all(TAG2ID[t] in known for t in ftags) and budget <= 0:
-            for t in ftags:
-                reported_ids.setdefault(TAG2ID[t], []).append(i)
-            continue
+    # Attribution: a hit is explained by known findings when every finding-tag of the case is known.
+    # To keep that honest the smallest hit of every distinct tag set is shrunk first (the shrunk case
+    # must still fail and is re-tagged); hits without any finding tag are always shrunk and reported.
+    by_tagset = {}
+    for i, tags in sorted(mon_hits, key=lambda t: len(lines[t[0]])):
+        by_tagset.setdefault(tuple(sorted(set(tags))), []).append(i)
+    shrink_budget = 6 if not thorough else 20
+    for tagset, idxs in sorted(by_tagset.items(),
+                               key=lambda kv: (any(t in TAG2ID for t in kv[0]), len(lines[kv[1][0]]))):
+        i = idxs[0]
         kind = impl[i]['mon'][0].split(':')[0]
         small = cases[i]
-        if budget > 0:
-            budget -= 1
-            small = shrink(cases[i], mon_pred(kind))
+        if shrink_budget > 0:
+            shrink_budget -= 1
+            small = shrink(cases[i], mon_pred(kind), rounds=5 if not thorough else 10)
         sline = G.enc_case(*small)
-        stags = split_model(lib.run_model(exe, [sline])[0])[1] if exe else tags
+        stags = split_model(lib.run_model(exe, [sline])[0])[1] if exe else list(tagset)
         sf = sorted({t for t in stags if t in TAG2ID})
         if sf and all(TAG2ID[t] in known for t in sf):
             for t in sf:
                 reported_ids.setdefault(TAG2ID[t], []).append(sline)
+            for t in sorted({t for t in tagset if t in TAG2ID and TAG2ID[t] in known}):
+                reported_ids.setdefault(TAG2ID[t], []).extend(idxs[1:])
+            if [t for t in tagset if t in TAG2ID and TAG2ID[t] not in known]:
+                unexplained.append((i, small, sline, stags, kind))
         else:
             unexplained.append((i, small, sline, stags, kind))
 
@@ -588,6 +604,7 @@ def run(tier):
             rep.violation('Refuted.v (witnesses of the known findings) no longer checks',
                           {'broken': 'theories/C06/Refuted.v'}, False)
 
+    phase('verdict+shrinking')
     # ---- evidence ---------------------------------------------------------------------------
     feats = {}
     sizes = {}
@@ -657,7 +674,7 @@ def run(tier):
         'primitives are the closed set of Model.sem1/sem2 (std operators and functions of the calculus)',
         'queries are binder-explicit; implicit path factoring is covered by the monitors only',
     ]
-    rep.notes.append(f'wall before finish {time.time() - t0:.1f}s')
+    rep.notes.append(f'wall before finish {time.time() - t0:.1f}s; phases: ' + ', '.join(f'{k}={v:.0f}s' for k, v in PH.items()))
     return rep.finish()
 
 
